@@ -1,3 +1,4 @@
+mod crash;
 mod http;
 mod ilv;
 mod loops;
@@ -19,6 +20,10 @@ fn main() {
     }
     world::install_panic_hook();
     world::install_global_hooks();
+    if args[1] == "crash-selftest" {
+        println!("{:?}", crash::self_test());
+        std::process::exit(0);
+    }
     if args[1] == "C12ROT" {
         props::c12::rotation_worker(&args[2]);
         world::cleanup_scratch();
